@@ -186,7 +186,8 @@ class IsScreenedAnyK:
                 return ov.is_integral_screened(s1, s2, M.scalar(eps))
 
         paths = M.paths(body, assumptions=[M.atom(eps, "<", 1)] if M.symbolic else ())
-        M.true("screened_anyK/pre@min", calls.every(lambda cs: len(cs) == 2 and cs[0] is s1.exps and cs[1] is s2.exps), "smallest exponent of each shell requested (on every path)")
+        M.true("screened_anyK/pre@min", calls.every(lambda cs: any(c is s1.exps for c in cs) and any(c is s2.exps for c in cs) and all(c is s1.exps or c is s2.exps for c in cs)),
+               "min() is asked about the exponent arrays of both shells and about nothing else (on every path; order and repetition are free)")
         sA, sB = M.to_spec(A), M.to_spec(B)
         sa, sb = (M.to_spec(amin), M.to_spec(bmin)) if not M.symbolic else (amin, bmin)
         seps = M.to_spec(eps) if not M.symbolic else eps
